@@ -308,6 +308,39 @@ fn mode_c06(seed: u64) {
         }
     }
 }
+// C16 outside the known finding K-C16: messages on DIFFERENT chunk streams alternating at message boundaries (no chunk of another
+// stream inside a partially received message), each stream with its own type / message stream id / length / timestamp chain and
+// compressed headers - every message must come out with exactly its own header fields and payload.
+fn mode_c16(seed: u64) {
+    let ids = [2u32, 3, 63, 64, 65, 255, 256, 319, 320, 321, 575, 576, 65598, 65599];
+    for (ia, &a) in ids.iter().enumerate() { for &b in &ids[ia + 1..] { for &(la, lb) in &[(0usize, 1usize), (1, 128), (128, 129), (129, 300), (300, 0), (257, 257)] {
+        let fa = if a <= 63 { 1u8 } else if a <= 319 { 2 } else { 3 }; let fb = if b <= 63 { 1u8 } else if b <= 319 { 3 } else { 3 };
+        let mut bytes = vec![]; let mut expect = vec![];
+        let mut emit = |fmt: u8, csid: u32, form: u8, tsf: u32, ts: u32, len: usize, ty: u8, msid: u32, salt: u8, bytes: &mut Vec<u8>, expect: &mut Vec<Msg>| {
+            let data = payload(len, salt);
+            let n = if len == 0 { 1 } else { (len + 127) / 128 };
+            for c in 0..n { let f = if c == 0 { fmt } else { 3 }; bytes.extend(ref_chunk(f, csid, form, tsf, len as u32, ty, msid, &data[c * 128..std::cmp::min((c + 1) * 128, len)])); }
+            expect.push(Msg { ts, ty, msid, data });
+        };
+        // A: type 9 on message stream 5, starts at 1000, delta 40;  B: type 8 on message stream 0x01020304, starts at 0xFFFFF0, delta 0x20 (crosses 0xFFFFFF)
+        emit(0, a, fa, 1000, 1000, la, 9, 5, 1, &mut bytes, &mut expect);
+        emit(0, b, fb, 0xFFFFF0, 0xFFFFF0, lb, 8, 0x01020304, 2, &mut bytes, &mut expect);
+        emit(1, a, fa, 40, 1040, la + 1, 18, 5, 3, &mut bytes, &mut expect);
+        emit(2, b, fb, 0x20, 0x1000010, lb, 8, 0x01020304, 4, &mut bytes, &mut expect);
+        emit(3, a, fa, 40, 1080, la + 1, 18, 5, 5, &mut bytes, &mut expect);
+        emit(3, b, fb, 0x20, 0x1000030, lb, 8, 0x01020304, 6, &mut bytes, &mut expect);
+        emit(2, a, fa, 7, 1087, la + 1, 18, 5, 7, &mut bytes, &mut expect);
+        for pieces in [vec![&bytes[..]], bytes.chunks(1).collect::<Vec<_>>(), bytes.chunks(11).collect::<Vec<_>>()] {
+            let mut d = ChunkDeserializer::new();
+            let r = real_decode(&mut d, &pieces);
+            if r.as_ref().ok() != Some(&expect) {
+                witness(format!("[c16] messages alternating at message boundaries on chunk streams {} ({}-byte form) and {} ({}-byte form), lengths {}/{} then {}/{}; A: full header ts 1000 type 9 msid 5, fmt 1 (delta 40, type 18, len+1), fmt 3, fmt 2 (delta 7); B: full header ts 0xFFFFF0 type 8 msid 0x01020304, fmt 2 (delta 0x20), fmt 3; {} pieces: real deserializer gives {:?}, expected {:?}",
+                    a, fa, b, fb, la, lb, la + 1, lb, pieces.len(), r.map(|v| v.iter().map(|m| (m.ts, m.ty, m.msid, m.data.len())).collect::<Vec<_>>()), expect.iter().map(|m| (m.ts, m.ty, m.msid, m.data.len())).collect::<Vec<_>>()));
+            }
+        }
+    } } }
+    mode_c06(seed ^ 0xC16);
+}
 fn mode_c19() {
     for &n in &[0u32, 0x80000000, 0xFFFFFFFF] {
         let mut s = ChunkSerializer::new();
@@ -351,6 +384,7 @@ fn main() {
         "c15" => { mode_c07_c01_c15("c15", seed); mode_c06(seed); }
         "c08" => mode_c08(seed),
         "c06" => mode_c06(seed),
+        "c16" => mode_c16(seed),
         "c19" => mode_c19(),
         _ => {}
     }
